@@ -2,6 +2,10 @@
 
 package server
 
-import "github.com/tidwall/tile38/internal/collection"
+import (
+	"github.com/tidwall/tile38/internal/collection"
+	"github.com/tidwall/tile38/internal/object"
+)
 
 type collectionT = collection.Collection
+type objectT = object.Object
